@@ -172,6 +172,8 @@ BankMsgs ==
         {[type |-> "bank.Send", from |-> f, to |-> t, denom |-> d, amt |-> n] : f \in Accts, t \in {BurnAcct}, d \in SendDenoms, n \in Amts} ELSE {})
     \cup (IF "bank.SendAcct" \in Kinds THEN
         {[type |-> "bank.Send", from |-> f, to |-> t, denom |-> d, amt |-> n] : f \in Accts, t \in Accts, d \in SendDenoms, n \in Amts} ELSE {})
+    \cup (IF "bank.SendMod" \in Kinds THEN
+        {[type |-> "bank.Send", from |-> f, to |-> t, denom |-> d, amt |-> n] : f \in Accts, t \in Blocked, d \in SendDenoms, n \in Amts \ {0}} ELSE {})
     \cup (IF "bank.MultiSend" \in Kinds THEN
         {[type |-> "bank.MultiSend", from |-> f, to |-> BurnAcct, denom |-> d, amt |-> n, parts |-> 2] : f \in Accts, d \in SendDenoms, n \in Amts} ELSE {})
     \cup (IF "vesting.Create" \in Kinds THEN
@@ -217,6 +219,11 @@ MCExport(m) == "ExportImportBegin" \in NextKinds /\ ExportImportBegin(m) /\ UNCH
 
 MCGov(n) == "GovSchedule" \in NextKinds /\ Cardinality(pending) < 2 /\ GovSchedule(n) /\ UNCHANGED ndel /\ HistNext /\ path' = Append(path, act')
 
+\* the same MESSAGES once more in a fresh transaction (new account sequence, so it passes the ante handler and reaches the handlers again):
+\* "any message that was accepted once is rejected whenever it is submitted again"
+MCResubmit(i) == "Resubmit" \in NextKinds /\ ndel < MaxDeliver /\ (SimSample = 0 \/ RandomElement(1..3) = 1)
+                 /\ Deliver(delivered[i].tx) /\ ndel' = ndel + 1 /\ HistNext /\ path' = Append(path, act')
+
 MCRedeliver(i) == "Redeliver" \in NextKinds /\ ndel < MaxDeliver /\ (FailKeep = 1 \/ RandomElement(1..FailKeep) = 1) /\ Redeliver(delivered[i], i) /\ ndel' = ndel + 1 /\ HistNext /\ path' = Append(path, act')
 
 \* simulation only: keeps a behaviour going when the random filters above disabled everything else (dropped before replay)
@@ -225,6 +232,7 @@ MCNoop == SimSample > 0 /\ act' = [name |-> "Noop"] /\ UNCHANGED <<height, phase
 Next ==
     \/ MCNoop
     \/ \E i \in DOMAIN delivered : MCRedeliver(i)
+    \/ \E i \in DOMAIN delivered : MCResubmit(i)
     \/ \E tx \in Txs : MCDeliver(tx)
     \/ MCEndBlock
     \/ \E n \in GovAmts : MCGov(n)
